@@ -1113,6 +1113,144 @@ impl<'w, 'i, W: Write> ContentSerializer<'w, 'i, W> {
     }
 //@end
 }
+// the tuple / struct forms (associated types the model trait does not carry: inherent, return types written out)
+impl<'w, 'i, W: Write> ContentSerializer<'w, 'i, W> {
+//@extract content::ContentSerializer::serialize_tuple | src/se/content.rs :: impl<'w, 'i, W: Write> Serializer for ContentSerializer<'w, 'i, W> :: fn serialize_tuple | serves=C13,C19 features=serialize
+//@rewrite Result<Self::SerializeTuple, Self::Error> ==> Result<Seq<'w, 'i, W>, SeError>
+    fn serialize_tuple(self, len: usize) -> (r: Result<Seq<'w, 'i, W>, SeError>)
+        requires self.ok()
+        ensures r matches Ok(q) && q.last is SensitiveNothing && q.ser == self
+    {
+        self.serialize_seq(Some(len))
+    }
+//@end
+//@extract content::ContentSerializer::serialize_tuple_struct | src/se/content.rs :: impl<'w, 'i, W: Write> Serializer for ContentSerializer<'w, 'i, W> :: fn serialize_tuple_struct | serves=C13,C19 features=serialize
+//@rewrite Result<Self::SerializeTupleStruct, Self::Error> ==> Result<Seq<'w, 'i, W>, SeError>
+    fn serialize_tuple_struct(
+        self,
+        _name: &'static str,
+        len: usize,
+    ) -> (r: Result<Seq<'w, 'i, W>, SeError>)
+        requires self.ok()
+        ensures r matches Ok(q) && q.last is SensitiveNothing && q.ser == self
+    {
+        self.serialize_tuple(len)
+    }
+//@end
+//@extract content::ContentSerializer::serialize_struct_variant | src/se/content.rs :: impl<'w, 'i, W: Write> Serializer for ContentSerializer<'w, 'i, W> :: fn serialize_struct_variant | serves=C13 features=serialize n15=1
+//@rewrite Result<Self::SerializeStructVariant, Self::Error> ==> Result<Struct<'w, 'i, W>, SeError>
+    fn serialize_struct_variant(
+        self,
+        name: &'static str,
+        _variant_index: u32,
+        variant: &'static str,
+        len: usize,
+    ) -> (r: Result<Struct<'w, 'i, W>, SeError>)
+        requires self.ok()
+        ensures
+            // C13: a struct variant in a `$value` field becomes an element named by the variant -- only if that is a legal XML name;
+            // `<variant` is written, the tag stays open, nothing is buffered yet
+            r matches Ok(st) ==> variant@ != "$text"@ && is_xml_name(variant@) && st.ser.key.0@ == variant@
+                && st.children@.len() == 0 && st.write_indent
+                && (*st.ser.ser.writer).out() == (*old(self.writer)).out() + self.pre() + seq![0x3cu8] + variant.spec_bytes()
+                && *final(st.ser.ser.writer) == *final(self.writer),
+    {
+        if variant == TEXT_KEY {
+            Err(SeError::Unsupported(
+                errmsg_(),
+            ))
+        } else {
+            let ser = ElementSerializer {
+                key: XmlName::try_from(variant)?,
+                ser: self,
+            };
+            ser.serialize_struct(name, len)
+        }
+    }
+//@end
+}
+impl<'w, 'k, W: Write> ElementSerializer<'w, 'k, W> {
+//@extract element::ElementSerializer::serialize_tuple | src/se/element.rs :: impl<'w, 'k, W: Write> Serializer for ElementSerializer<'w, 'k, W> :: fn serialize_tuple | serves=C13 features=serialize
+//@rewrite Result<Self::SerializeTuple, Self::Error> ==> Result<Self, SeError>
+    fn serialize_tuple(self, len: usize) -> (r: Result<Self, SeError>)
+        requires self.ok()
+        ensures r matches Ok(q) && q == self
+    {
+        self.serialize_seq(Some(len))
+    }
+//@end
+//@extract element::ElementSerializer::serialize_tuple_struct | src/se/element.rs :: impl<'w, 'k, W: Write> Serializer for ElementSerializer<'w, 'k, W> :: fn serialize_tuple_struct | serves=C13 features=serialize
+//@rewrite Result<Self::SerializeTupleStruct, Self::Error> ==> Result<Self, SeError>
+    fn serialize_tuple_struct(
+        self,
+        _name: &'static str,
+        len: usize,
+    ) -> (r: Result<Self, SeError>)
+        requires self.ok()
+        ensures r matches Ok(q) && q == self
+    {
+        self.serialize_tuple(len)
+    }
+//@end
+}
+impl<'w, W: Write> SimpleTypeSerializer<&'w mut W> {
+//@extract simple_type::SimpleTypeSerializer::serialize_tuple | src/se/simple_type.rs :: impl<W: Write> Serializer for SimpleTypeSerializer<W> :: fn serialize_tuple | serves=C13 features=serialize
+//@rewrite Result<Self::SerializeTuple, Self::Error> ==> Result<SimpleSeq<&'w mut W>, SeError>
+    fn serialize_tuple(self, _len: usize) -> (r: Result<SimpleSeq<&'w mut W>, SeError>)
+        ensures r matches Ok(q) && q.target == self.target && q.level == self.level && q.is_empty
+            && (*q.writer).out() == (*old(self.writer)).out() && *final(q.writer) == *final(self.writer),
+    {
+        self.serialize_seq(None)
+    }
+//@end
+//@extract simple_type::SimpleTypeSerializer::serialize_tuple_struct | src/se/simple_type.rs :: impl<W: Write> Serializer for SimpleTypeSerializer<W> :: fn serialize_tuple_struct | serves=C13 features=serialize
+//@rewrite Result<Self::SerializeTupleStruct, Self::Error> ==> Result<SimpleSeq<&'w mut W>, SeError>
+    fn serialize_tuple_struct(
+        self,
+        _name: &'static str,
+        _len: usize,
+    ) -> (r: Result<SimpleSeq<&'w mut W>, SeError>)
+        ensures r matches Ok(q) && q.target == self.target && q.level == self.level && q.is_empty
+            && (*q.writer).out() == (*old(self.writer)).out() && *final(q.writer) == *final(self.writer),
+    {
+        self.serialize_seq(None)
+    }
+//@end
+}
+impl<'w, 'i, W: Write> ContentSerializer<'w, 'i, W> {
+//@extract content::ContentSerializer::serialize_tuple_variant | src/se/content.rs :: impl<'w, 'i, W: Write> Serializer for ContentSerializer<'w, 'i, W> :: fn serialize_tuple_variant | serves=C13 features=serialize
+//@rewrite Result<Self::SerializeTupleVariant, Self::Error> ==> Result<Tuple<'w, 'i, W>, SeError>
+//@rewrite .map(Tuple::Text) ==> .map(|q__: SimpleSeq<&'w mut W>| Tuple::Text(q__))
+//@rewrite .map(Tuple::Element) ==> .map(|q__: ElementSerializer<'w, 'i, W>| Tuple::Element(q__))
+    fn serialize_tuple_variant(
+        self,
+        name: &'static str,
+        _variant_index: u32,
+        variant: &'static str,
+        len: usize,
+    ) -> (r: Result<Tuple<'w, 'i, W>, SeError>)
+        requires self.ok()
+        ensures
+            // C13: a tuple variant in a `$value` field: elements named by the variant -- only if that is a legal XML name --, or,
+            // for `$text`, an xs:list written with the Text escaping rules and the level in force
+            r matches Ok(Tuple::Element(e)) ==> variant@ != "$text"@ && is_xml_name(variant@) && e.key.0@ == variant@ && e.ser == self,
+            r matches Ok(Tuple::Text(q)) ==> variant@ == "$text"@ && q.target is Text && q.level == self.level && q.is_empty
+                && (*q.writer).out() == (*old(self.writer)).out() && *final(q.writer) == *final(self.writer),
+    {
+        if variant == TEXT_KEY {
+            self.into_simple_type_serializer()?
+                .serialize_tuple_struct(name, len)
+                .map(|q__: SimpleSeq<&'w mut W>| -> (o: Tuple<'w, 'i, W>) ensures o == Tuple::Text(q__) { Tuple::Text(q__) })
+        } else {
+            let ser = ElementSerializer {
+                key: XmlName::try_from(variant)?,
+                ser: self,
+            };
+            ser.serialize_tuple_struct(name, len).map(|q__: ElementSerializer<'w, 'i, W>| -> (o: Tuple<'w, 'i, W>) ensures o == Tuple::Element(q__) { Tuple::Element(q__) })
+        }
+    }
+//@end
+}
 // generic over `T: Serialize`: inherent (see the model traits above)
 impl<'w, 'k, W: Write> ElementSerializer<'w, 'k, W> {
 //@extract element::ElementSerializer::serialize_some | src/se/element.rs :: impl<'w, 'k, W: Write> Serializer for ElementSerializer<'w, 'k, W> :: fn serialize_some | serves=C13 features=serialize
